@@ -47,6 +47,7 @@ def run(F, rep, tier):
     # a value that reads mutable heap state (a field, an element, a comparison of lists/blobs) and is written at its use is
     # evaluated after the calls in between: a nested call alters an operand that was "already evaluated" (eight known findings)
     c01.irp_order(F, rep, T)
+    c01.guarded_arms_lower_alike(F, rep, T)
     # the runtime's higher-order helpers (map, fold, for_each ..) re-enter user code: their own temporaries must not be
     # shared between activations while a callback runs
     import c18
